@@ -715,6 +715,9 @@ def run_records(kind, recs, nthemes, wd, tag, T, salt):
 
 def run(tier, out):
     wd = core.workdir(PROP)
+    # the server runtime's use of the route table: which agent instance an envelope reaches (ServerPlane.tla)
+    from checks import k_server
+    k_server.run_k(tier, out, os.path.join(wd, "kserver"), prop=PROP)
     build_route_harness(wd)
     open_ids = {f["id"] for f in core.open_findings(PROP)}
     T = Tally(out, open_ids)
@@ -843,8 +846,11 @@ def run(tier, out):
 # ----------------------------------------------------------------------------- replay
 
 def replay(path, out):
-    wd = core.workdir(PROP + "_replay")
     obj = json.load(open(path))["replay"]
+    if obj.get("component") == "ServerPlane":
+        from checks import k_server
+        return k_server.replay(path, out)
+    wd = core.workdir(PROP + "_replay")
     kind, rec, ti, case = obj["kind"], obj["rec"], obj["theme"], obj["case"]
     if any(a["k"] == "server" for a in case["acts"]):
         build_route_harness(wd)
